@@ -116,7 +116,7 @@ def splitImpl (impl : String) : Option (String × Nat × Nat × String) :=
   | _ => none
 
 def learn (hm : HMap) (c : Nat) (recs : List Rec) (h : String) : Option HMap :=
-  let parts := if h == "-" then [] else h.splitOn ","
+  let parts := if h == "-" ∧ recs.isEmpty then [] else h.splitOn ","
   if parts.length ≠ recs.length then none
   else (recs.zip parts).foldlM (fun hm (r, p) =>
     if r.frm = [] ∨ r.cmn = [] then (if p == "-" then some hm else none)
